@@ -130,7 +130,7 @@ func runAcceptSeq(seq string) (obs string, problems []string) {
 				time.Sleep(200 * time.Microsecond)
 			}
 			el := time.Since(t0).Milliseconds()
-			if el+2 < expectSleep || el > expectSleep+400 {
+			if el+2 < expectSleep || el > expectSleep+2500 { // (upper bracket generous: a loaded machine oversleeps)
 				problems = append(problems, fmt.Sprintf("slept %dms where %dms was announced", el, expectSleep))
 			}
 		case 'C':
